@@ -475,6 +475,10 @@ def setup():
 
 def manifest():
     cfgs = all_cfgs()
+    ip = os.path.join(VERIF, "props", "INTEGRATED")
+    if os.path.exists(ip):  # only checks the coordinator has integrated are registered
+        integrated = set(open(ip).read().split())
+        cfgs = [c for c in cfgs if c["id"] in integrated]
     props = [json.loads(l)["id"] for l in open(os.path.join(VERIF, "properties.jsonl"))]
     claimed = {c["id"] for c in cfgs}
     na_path = os.path.join(VERIF, "props", "not_applicable.json")
